@@ -259,9 +259,8 @@ def run(tier='quick', seed=0):
     tasks = [(n, cn, t) for n, (cn, t) in sorted(table.items())]
     ctx = mp.get_context('fork')
     all_obs = []
-    with ctx.Pool(processes=min(16, os.cpu_count() or 4), maxtasksperchild=16) as pool:
-        for obs in pool.imap_unordered(task, tasks, chunksize=4):
-            all_obs.extend(obs)
+    from ..par import collect
+    all_obs.extend(collect(task, tasks, 12, 600, lambda t, why: dict(oid=f'C15/worker/{t[0]}', status='undecided', detail=why, paths=0, name=t[0], cname=t[1], kind='worker')))
     viol = sorted((o for o in all_obs if o['status'] == 'violated' and R.match_known(o['oid'], o.get('detail')) is None), key=lambda o: o['oid'])
     srcs = [(o['oid'], replay_source(o), str(o.get('detail'))) for o in viol[:report.REPLAY_CAP] if o.get('kind') == 'children']
     replayed = report.replay_many('C15', srcs, cap=len(srcs))
